@@ -1,7 +1,10 @@
 import SciVerif.Tie.ProcSem
 import SciVerif.Props.C08
+import SciVerif.Tie.Pins
 /-! Tie A obligations for C08 on the current source. -/
 namespace SciVerif.Tie
+-- functions the model relies on without an obligation of its own naming them (pinned by bin/mkpins):
+-- PIN-ALSO: Scipipe.InPort_Send Scipipe.OutPort_Send Scipipe.InPort_CloseConnection Scipipe.Process_createTasks
 open SciVerif.Proc
 
 theorem generated_proc_sem_good : good procSem := by decide
@@ -14,7 +17,26 @@ theorem generated_done_unbuffered :
 theorem c08_on_source (ls : List Label) (s : PSt) (h : run procSem init ls = some s) :
     s.forwarded <+: s.accepted := c08_forwarded_is_prefix procSem generated_proc_sem_good ls s h
 
+
+-- BEGIN PINS (written by bin/mkpins; do not edit by hand)
+/-- the Go functions this property's model and obligations were written against have exactly the
+pinned skeletons (SHA-256 prefix of the atom list) -/
+theorem pinned_skeletons_c08 :
+    pinsOk
+    [("Scipipe.FinalizePaths", "291fc0cefa37cea9"),
+     ("Scipipe.InPort_CloseConnection", "19d2a9417eaebec1"),
+     ("Scipipe.InPort_Send", "62cb51bf3ab53084"),
+     ("Scipipe.NewTask", "95298f03c320cb96"),
+     ("Scipipe.OutPort_Send", "06287c7bef096378"),
+     ("Scipipe.Process_Run", "05880ea16e590fb1"),
+     ("Scipipe.Process_createTasks", "8c856d9ef4492f5d"),
+     ("Scipipe.Task_Execute", "40fd1fec0c69deb2"),
+     ("Scipipe.Task_writeAuditLogs", "5ee6e36ed2566be6"),
+     ("Scipipe.taskQueue_NextTaskDone", "749f6263d8a0c13f")] = true := by decide
+-- END PINS
+
 end SciVerif.Tie
+#print axioms SciVerif.Tie.pinned_skeletons_c08
 #print axioms SciVerif.Tie.generated_proc_sem_good
 #print axioms SciVerif.Tie.generated_done_unbuffered
 #print axioms SciVerif.Tie.c08_on_source
